@@ -843,3 +843,5 @@ func (e *storeEnv) genWrites(task string, tx *store.OngoingTx, maxEntries int, m
 	}
 	return out, nil
 }
+
+func osStat(p string) (os.FileInfo, error) { return os.Stat(p) }
